@@ -23,6 +23,11 @@ pointer to an empty map, which the tree comparison `jeq` tells apart from the so
 (`copy_hypothesis_needed`); `copy_correct_nil_ptrs` / `copy_correct_driver` cover every tree, comparing the copy with
 the source up to `jCopyNorm` (Spec/StrAnyMapSpec.lean: nil pointer to a map ↦ pointer to an empty map).
 The model of the tree at the pinned commit is rejected on the class `samap-cap-is-len` (`repo_not_correct`).
+
+Loop and Reset (`samapLoop`, `samapReset`, Lib/StrAnyMap.lean; driver handlers `samapOpLoop`, `samapOpReset`): section
+LoopReset relates Loop to Get (`loop_via_get`: the model is what the driver computed inline before); section NoPanic
+has `loop_no_panic` (every tree, every path — the argument forms reach Loop as the root node) and `reset_no_panic`
+(every argument form, every tree).
 -/
 import InspectorModel.Proofs.C18
 namespace Inspector.C18
@@ -277,6 +282,32 @@ theorem copy_nil_ptr_map (hold n : Nat) :
      | _ => false) = true := by
   simp [samapCpy, samapCpyList, LibCfg.fixed]
 
+/-! ### Loop / Reset -/
+section LoopReset
+
+/-- Any configuration: Loop is Get of the path followed by Loop with the empty path of the node handed out —
+`samapLoopViaGet` is, constructor for constructor, what `samapOpLoop` computed inline before `samapLoop` was there. -/
+theorem loop_via_get (cfg : LibCfg) (j : JVal) (p : List Bytes) :
+    samapLoop cfg j p = samapLoopViaGet cfg j p := samapLoop_eq_viaGet cfg p j
+
+/-- Any configuration: Loop panics only with the nil-pointer switch on. -/
+theorem loop_panic_only (cfg : LibCfg) (j : JVal) (p : List Bytes)
+    (h : (match samapLoop cfg j p with | .panic => true | _ => false) = true) :
+    cfg.samapNilPtrPanics = true := by
+  cases hres : samapLoop cfg j p with
+  | panic => exact samapLoop_panic cfg p j hres
+  | iterate _ _ => simp [hres] at h
+  | nothing => simp [hres] at h
+  | unsupported => simp [hres] at h
+
+/-- Any configuration: Reset panics only for a nil `*map[string]any` / a `**map[string]any` whose target is nil,
+and only with the nil-pointer switch on. -/
+theorem reset_panic_only (cfg : LibCfg) (f : Form) (m : JVal) (h : (samapReset cfg f m).isNone = true) :
+    (f = .nilPtr ∨ f = .ptrNilPtr) ∧ cfg.samapNilPtrPanics = true := by
+  cases f <;> cases hc : cfg.samapNilPtrPanics <;> simp [samapReset, hc] at h ⊢
+
+end LoopReset
+
 /-! ### C02: the repaired model never panics — every tree, nil pointers included -/
 section NoPanic
 
@@ -293,6 +324,13 @@ theorem set_no_panic_cfg (cfg : LibCfg) (hc : cfg.samapNilPtrPanics = false) (j 
     samapSet cfg j p src ≠ .panic := samapSet_no_panic cfg hc src p j
 theorem copy_no_panic_cfg (cfg : LibCfg) (hc : cfg.samapNilPtrPanics = false) (j : JVal) :
     (samapCpy cfg j).isSome = true := samapCpy_no_panic cfg hc j
+/-- Loop: every node `j` the root `any` may be (a map held by value / pointer / double pointer, a nil pointer in
+either position, untyped nil, a foreign type — `rootJ` of the driver), every key path. -/
+theorem loop_no_panic_cfg (cfg : LibCfg) (hc : cfg.samapNilPtrPanics = false) (j : JVal) (p : List Bytes) :
+    samapLoop cfg j p ≠ .panic := samapLoop_no_panic cfg hc p j
+/-- Reset: every argument form, every tree. -/
+theorem reset_no_panic_cfg (cfg : LibCfg) (hc : cfg.samapNilPtrPanics = false) (f : Form) (m : JVal) :
+    (samapReset cfg f m).isSome = true := samapReset_no_panic cfg hc f m
 
 theorem get_no_panic (j : JVal) (p : List Bytes) : samapGet LibCfg.fixed j p ≠ .panic :=
   samapGet_no_panic LibCfg.fixed rfl p j
@@ -306,6 +344,10 @@ theorem set_no_panic (j : JVal) (p : List Bytes) (src : Src) : samapSet LibCfg.f
   samapSet_no_panic LibCfg.fixed rfl src p j
 theorem copy_no_panic (j : JVal) : (samapCpy LibCfg.fixed j).isSome = true :=
   samapCpy_no_panic LibCfg.fixed rfl j
+theorem loop_no_panic (j : JVal) (p : List Bytes) : samapLoop LibCfg.fixed j p ≠ .panic :=
+  samapLoop_no_panic LibCfg.fixed rfl p j
+theorem reset_no_panic (f : Form) (m : JVal) : (samapReset LibCfg.fixed f m).isSome = true :=
+  samapReset_no_panic LibCfg.fixed rfl f m
 
 end NoPanic
 
@@ -337,6 +379,11 @@ example : (match samapSet LibCfg.fixed exJ [key "m", key "t"] srcStr with
     | .ok after => (match samapGet LibCfg.fixed after [key "m", key "t"] with | .node (.leaf s) => s.v == .str (strBytes "new") | _ => false)
     | _ => false) = true := by decide
 example : (match samapCpy LibCfg.fixed exJ with | some (c, s) => jeq exJ c && s == 0 | none => false) = true := by decide
+example : (match samapLoop LibCfg.fixed exJ [key "m"] with | .iterate ks vs => ks == [key "s"] && vs.length == 1 | _ => false) = true := by decide
+example : (match samapLoop LibCfg.fixed exJ [key "zz"] with | .nothing => true | _ => false) = true ∧
+    (match samapLoop LibCfg.fixed exJ [key "a", key "x"] with | .unsupported => true | _ => false) = true := by decide
+example : (match samapReset LibCfg.fixed .ptr exJ with | some (.map 0 0 false [] []) => true | _ => false) = true ∧
+    (match samapReset LibCfg.fixed .val exJ with | some after => jeq exJ after | none => false) = true := by decide
 
 /-- Known finding `samap-cap-is-len`: Capacity with a non-empty path answers with the length. -/
 theorem repo_not_correct :
@@ -363,7 +410,19 @@ theorem original_panics_nil_ptr :
     (samapCpy LibCfg.original exNilJ).isNone = true ∧
     (match samapCpy LibCfg.fixed exNilJ with
       | some (.map 0 0 false _ [_, .map 1 0 false [] [], .leaf s], 0) => s.v.isNilPtr
-      | _ => false) = true := by decide
+      | _ => false) = true ∧
+    -- Loop: a nil pointer to a map at the end of the path and on the way (repaired: nothing to iterate over / nothing found)
+    (match samapLoop LibCfg.original exNilJ [key "n"] with | .panic => true | _ => false) = true ∧
+    (match samapLoop LibCfg.fixed exNilJ [key "n"] with | .iterate [] [] => true | _ => false) = true ∧
+    (match samapLoop LibCfg.original exNilJ [key "n", key "x"] with | .panic => true | _ => false) = true ∧
+    (match samapLoop LibCfg.fixed exNilJ [key "n", key "x"] with | .nothing => true | _ => false) = true ∧
+    -- Loop: the root itself a nil `*map[string]any` / a `**map[string]any` whose target is nil
+    (match samapLoop LibCfg.original (.map 1 1 true [] []) [] with | .panic => true | _ => false) = true ∧
+    (match samapLoop LibCfg.fixed (.map 2 2 true [] []) [] with | .iterate [] [] => true | _ => false) = true ∧
+    -- Reset of a nil `*map[string]any` / a `**map[string]any` whose target is nil (repaired: nothing happens)
+    (samapReset LibCfg.original .nilPtr exJ).isNone = true ∧ (samapReset LibCfg.original .ptrNilPtr exJ).isNone = true ∧
+    (match samapReset LibCfg.fixed .nilPtr exJ with | some after => jeq exJ after | none => false) = true ∧
+    (match samapReset LibCfg.fixed .ptrNilPtr exJ with | some after => jeq exJ after | none => false) = true := by decide
 
 /-- `JMapsOK` is needed: with a repeated key (not a Go map) the tree is not even equal to itself. -/
 example : let j : JVal := .map 0 0 false [key "a", key "a"] [.leaf { kind := .int, v := .int 1 }, .leaf { kind := .int, v := .int 2 }]
@@ -431,13 +490,15 @@ theorem copy_norm_current (j c : JVal) (s : Nat) (hw : JMapsOK j = true) (hn : J
 
 /-- Since `fix: StringAnyMapInspector dereferenced nil pointers` the switch is off in the tree as it is: no method
 of the map[string]any inspector panics, whatever nil pointers the tree holds. -/
-theorem no_panic_current (j : JVal) (p : List Bytes) (op : Op) (right : Seg) (src : Src) :
+theorem no_panic_current (j : JVal) (p : List Bytes) (op : Op) (right : Seg) (src : Src) (f : Form) :
     samapGet LibCfg.repo j p ≠ .panic ∧ (samapCmp LibCfg.repo j p op right).1 ≠ .panic ∧
     samapLen LibCfg.repo j p ≠ .panic ∧ samapCap LibCfg.repo j p ≠ .panic ∧
-    samapSet LibCfg.repo j p src ≠ .panic ∧ (samapCpy LibCfg.repo j).isSome = true :=
+    samapSet LibCfg.repo j p src ≠ .panic ∧ (samapCpy LibCfg.repo j).isSome = true ∧
+    samapLoop LibCfg.repo j p ≠ .panic ∧ (samapReset LibCfg.repo f j).isSome = true :=
   ⟨get_no_panic_cfg LibCfg.repo rfl j p, cmp_no_panic_cfg LibCfg.repo rfl rfl j p op right,
    len_no_panic_cfg LibCfg.repo rfl j p, cap_no_panic_cfg LibCfg.repo rfl j p,
-   set_no_panic_cfg LibCfg.repo rfl j p src, copy_no_panic_cfg LibCfg.repo rfl j⟩
+   set_no_panic_cfg LibCfg.repo rfl j p src, copy_no_panic_cfg LibCfg.repo rfl j,
+   loop_no_panic_cfg LibCfg.repo rfl j p, reset_no_panic_cfg LibCfg.repo rfl f j⟩
 
 end CurrentTree
 
